@@ -11,6 +11,36 @@ From Y2 Require Import Gen.GenFwdDeclConsts Model.FwdDecl Spec.FwdDeclSpec Proof
 Import ListNotations.
 
 (* ------------------------------------------------------------------------------------------------------------ *)
+(* Translated constants (first: when the source changes, the first obligation that fails names the cause). *)
+
+(* the regex in the source is the one the hand-written scanner `next_match` implements *)
+Theorem C19_regex_unchanged : regex_is_expected = true /\ name_regex = expected_regex.
+Proof. split; reflexivity. Qed.
+Print Assumptions C19_regex_unchanged.
+
+(* every keyword the printer of type descriptions can emit (words of the fundamental types incl. wchar_t, char8_t,
+   char16_t, char32_t; const; volatile) is in the keyword set of the source *)
+Theorem C19_keywords_cover : forall w, In w grammar_keywords -> In w keywords.
+Proof.
+  assert (H : forallb (fun w => existsb (String.eqb w) keywords) grammar_keywords = true)
+    by (vm_compute; reflexivity).
+  intros w Hin. rewrite forallb_forall in H. specialize (H w Hin).
+  apply existsb_exists in H. destruct H as (x & Hx & He). apply String.eqb_eq in He. subst x. exact Hx.
+Qed.
+Print Assumptions C19_keywords_cover.
+
+(* names under std:: and yorel:: are skipped *)
+Theorem C19_prefixes_cover : In "std::"%string skipped_prefixes /\ In "yorel::"%string skipped_prefixes.
+Proof. split; vm_compute; tauto. Qed.
+Print Assumptions C19_prefixes_cover.
+
+Example C19_keywords_example :
+  In "const"%string grammar_keywords /\ In "wchar_t"%string grammar_keywords /\
+  In "char16_t"%string grammar_keywords /\ In "unsigned"%string grammar_keywords /\
+  List.length grammar_keywords = 31.
+Proof. vm_compute. intuition. Qed.
+
+(* ------------------------------------------------------------------------------------------------------------ *)
 (* Writer.  For ANY list of valid qualified names -- no bound on their number, on the nesting depth or on the
    length of identifiers; sorted or not; identifiers that are string prefixes of one another; a class named like a
    namespace -- the text written is balanced, leaves no namespace open, and declares exactly the requested
@@ -70,52 +100,6 @@ Example C19_parse_rejects :
   parse (T "namespace a{class X;}class Y;") = Some [([T "a"], T "X"); ([], T "Y")].
 Proof. vm_compute. repeat split. Qed.
 
-(* The writer's hypothesis is what the scanner guarantees: whatever text is scanned (ANY text, in or out of the
-   grammar below), every name kept is the text of a valid qualified name, so any list drawn from the scanned names
-   -- in particular the sorted duplicate-free content of the std::set -- is written as balanced text declaring
-   exactly those classes. *)
-Theorem C19_scanned_names_are_written_well :
-  forall (s : text) (names : list text),
-    (forall n, In n names -> In n (scan s)) ->
-    exists qs out, names = map qname_text qs /\ forallb valid_qname qs = true /\
-                   write_forward_declarations names = Some out /\ parse out = Some qs.
-Proof. exact scan_then_write. Qed.
-Print Assumptions C19_scanned_names_are_written_well.
-
-Example C19_scanned_example :
-  scan (T "a::b::C const* (x::::y, _u::v, 3rd::w)") = [T "a::b::C"; T "x"; T "y"].
-Proof. vm_compute. reflexivity. Qed.
-
-(* ------------------------------------------------------------------------------------------------------------ *)
-(* Translated constants. *)
-
-(* the regex in the source is the one the hand-written scanner `next_match` implements *)
-Theorem C19_regex_unchanged : regex_is_expected = true /\ name_regex = expected_regex.
-Proof. split; reflexivity. Qed.
-Print Assumptions C19_regex_unchanged.
-
-(* every keyword the printer of type descriptions can emit (words of the fundamental types incl. wchar_t, char8_t,
-   char16_t, char32_t; const; volatile) is in the keyword set of the source *)
-Theorem C19_keywords_cover : forall w, In w grammar_keywords -> In w keywords.
-Proof.
-  assert (H : forallb (fun w => existsb (String.eqb w) keywords) grammar_keywords = true)
-    by (vm_compute; reflexivity).
-  intros w Hin. rewrite forallb_forall in H. specialize (H w Hin).
-  apply existsb_exists in H. destruct H as (x & Hx & He). apply String.eqb_eq in He. subst x. exact Hx.
-Qed.
-Print Assumptions C19_keywords_cover.
-
-(* names under std:: and yorel:: are skipped *)
-Theorem C19_prefixes_cover : In "std::"%string skipped_prefixes /\ In "yorel::"%string skipped_prefixes.
-Proof. split; vm_compute; tauto. Qed.
-Print Assumptions C19_prefixes_cover.
-
-Example C19_keywords_example :
-  In "const"%string grammar_keywords /\ In "wchar_t"%string grammar_keywords /\
-  In "char16_t"%string grammar_keywords /\ In "unsigned"%string grammar_keywords /\
-  List.length grammar_keywords = 31.
-Proof. vm_compute. intuition. Qed.
-
 (* ------------------------------------------------------------------------------------------------------------ *)
 (* Extraction.  FULL statement: for every type description the library can be given, the names kept are the class
    names that are not template names and not under std:: / yorel::.
@@ -155,3 +139,21 @@ Example C19_extract_example :
               ++ "int (" ++ "*)(std::ostream&)), yorel::yomm2::policy::debug>") /\
   scan (show t) = [T "key"; T "Animal"; T "ns::X"; T "Animal"; T "Q"].
 Proof. vm_compute. repeat split. Qed.
+
+(* ------------------------------------------------------------------------------------------------------------ *)
+(* The writer's hypothesis is what the scanner guarantees: whatever text is scanned (ANY text, in or out of the
+   grammar below), every name kept is the text of a valid qualified name, so any list drawn from the scanned names
+   -- in particular the sorted duplicate-free content of the std::set -- is written as balanced text declaring
+   exactly those classes. *)
+Theorem C19_scanned_names_are_written_well :
+  forall (s : text) (names : list text),
+    (forall n, In n names -> In n (scan s)) ->
+    exists qs out, names = map qname_text qs /\ forallb valid_qname qs = true /\
+                   write_forward_declarations names = Some out /\ parse out = Some qs.
+Proof. exact scan_then_write. Qed.
+Print Assumptions C19_scanned_names_are_written_well.
+
+Example C19_scanned_example :
+  scan (T "a::b::C const* (x::::y, _u::v, 3rd::w)") = [T "a::b::C"; T "x"; T "y"].
+Proof. vm_compute. reflexivity. Qed.
+
